@@ -1,13 +1,11 @@
 // Brace elision with string literals (C11 6.7.9p14, p20): a string literal is the
 // initializer of a whole array only when the array has character element type;
-// for any other array it initialises (by brace elision) the first element.
+// for an array of arrays it initialises (by brace elision) the first element.
 #include <stdio.h>
 #include <string.h>
 struct N { char n[2][4]; int k; };
-struct V { const char *names[2]; int k; };
 int main(void) {
   struct N a = { "abc", "def", 1 };          /* n[0]="abc", n[1]="def", k=1 */
-  struct V v = { "x", "y", 3 };              /* names[0]="x", names[1]="y", k=3 */
-  printf("%s %s %d | %s %s %d\n", a.n[0], a.n[1], a.k, v.names[0], v.names[1], v.k);
-  return !(!strcmp(a.n[0], "abc") && !strcmp(a.n[1], "def") && a.k == 1 && v.k == 3 && !strcmp(v.names[1], "y"));
+  printf("%s %s %d\n", a.n[0], a.n[1], a.k);
+  return !(!strcmp(a.n[0], "abc") && !strcmp(a.n[1], "def") && a.k == 1);
 }
